@@ -24,7 +24,7 @@ EXPLANATION = (
     "carries the time-step counter; the dap column carries the state's dap. C07.d: the planting / harvest year lists "
     "derived at initialisation are not mutated in place while another name aliases the same list. C07.e: crop_mature is set only under `<clock> >= crop.Maturity` "
     "where the clock's normal form is the state's own days-after-planting (under CalendarType == 1) or cumulative degree days (under "
-    "CalendarType == 2) of that day - not a delay-adjusted or otherwise shifted clock - and both calendar types are covered. C07.f: crop_mature, crop_dead, harvest_flag and dap are cleared on every path of the season reset (literal setattr loops are expanded). C07.g: the growing-season window excludes the step that starts on the harvest date (the summary is written on the step that ends on it), so the season's length does not depend on the off-season flag. C07.h: the day offset from which a missing harvest date is derived (kept as month/day; seasons recur yearly) has a constant bound <= 364 - a larger offset wraps round the year and cuts every season short. C07.j: both 'another season follows' tests of update_time have the normal form season_counter < n_seasons - 1 on the clock's current counter. C07.k: for a crop whose season lies within a calendar year the last calendar year of the window is dropped from the schedule exactly when the end date (month/day) is on or before the planting day - the test is resolved through locals and negations, its two sides by provenance (end date vs planting date, not the start or harvest date). C07.l: growing_season = True is reached only under planting date reached, harvest date not reached, crop not mature and crop not dead (C07.g now reads chained comparisons and comparisons held in locals too). C07.m (the run always terminates - inner loops; T-LOOP, shared with C16.n): every while loop has a visible reason to stop (stepped counter against an invariant bound on every cycle, countdown, counter-driven flag, listed derived / delegated / guarded convergence loops). C07.n: the days to maturity from which a missing latest harvest date is derived are read from the calendar computed for this window (the result of compute_crop_calendar), not from the crop object's tabulated attribute (backward slice of the day offset). C07.o: the branch of read_model_parameters that makes the harvest years equal to the planting years (season within one calendar year) is taken exactly when the planting month/day lies strictly before the latest harvest month/day - a harvest date on the planting day itself is a season of a full year (test resolved through locals and negations, sides by provenance). NOT decided: the remaining "
+    "CalendarType == 2) of that day - not a delay-adjusted or otherwise shifted clock - and both calendar types are covered. C07.f: crop_mature, crop_dead, harvest_flag and dap are cleared on every path of the season reset (literal setattr loops are expanded). C07.g: the growing-season window excludes the step that starts on the harvest date (the summary is written on the step that ends on it), so the season's length does not depend on the off-season flag. C07.h: the day offset from which a missing harvest date is derived (kept as month/day; seasons recur yearly) has a constant bound <= 364 - a larger offset wraps round the year and cuts every season short. C07.j: both 'another season follows' tests of update_time have the normal form season_counter < n_seasons - 1 on the clock's current counter. C07.k: for a crop whose season lies within a calendar year the last calendar year of the window is dropped from the schedule exactly when the end date (month/day) is on or before the planting day - the test is resolved through locals and negations, its two sides by provenance (end date vs planting date, not the start or harvest date). C07.l: growing_season = True is reached only under planting date reached, harvest date not reached, crop not mature and crop not dead (C07.g now reads chained comparisons and comparisons held in locals too). C07.m (the run always terminates - inner loops; T-LOOP, shared with C16.n): every while loop has a visible reason to stop (stepped counter against an invariant bound on every cycle, countdown, counter-driven flag, listed derived / delegated / guarded convergence loops). C07.n: the days to maturity from which a missing latest harvest date is derived are read from the calendar computed for this window (the result of compute_crop_calendar), not from the crop object's tabulated attribute (backward slice of the day offset). C07.o: the branch of read_model_parameters that makes the harvest years equal to the planting years (season within one calendar year) is taken exactly when the planting month/day lies strictly before the latest harvest month/day - a harvest date on the planting day itself is a season of a full year (test resolved through locals and negations, sides by provenance). C07.p: in update_time the comparison of the step start time with the next planting date is dominated by the store that advances the step start time (it looks at the upcoming day, not the one just simulated). NOT decided: the remaining "
     "planting / harvest year arithmetic itself (numeric).")
 
 L = frozenset
@@ -921,6 +921,36 @@ def rule_o(chk, prog):
     chk.floor("C07.o", n_sites, 1, "single-year branches (harvest years = planting years) in read_model_parameters")
 
 
+def rule_p(chk, prog):
+    """C07.p (seasons begin on the planting day; days after planting count from it): update_time decides "the upcoming day starts a new
+    season" by comparing the clock's step start time with the next planting date. In the day-by-day branch that comparison is made on the
+    NEW day: it is dominated by the store that advances `step_start_time` in the same call. Evaluated before the clock is advanced it sees
+    the day just simulated - the planting day itself then runs as a fallow day and every such season starts a day late."""
+    up = prog.func(UPDATE_FN)
+    flow = flow_of(up)
+    cfg = flow.cfg
+    dom = cfg.dominators()
+    where = UPDATE_FN
+    chk.fn(up.key)
+    stores_ = [k.id for k in cfg.live_nodes() if isinstance(k.ast, ast.Assign) and isinstance(k.ast.targets[0], ast.Attribute) and k.ast.targets[0].attr == "step_start_time"]
+    n = 0
+    for c in walk_no_nested(up.node):
+        if not (isinstance(c, ast.Compare) and any(isinstance(x, ast.Attribute) and x.attr == "step_start_time" for x in ast.walk(c))
+                and any(isinstance(x, ast.Attribute) and x.attr == "planting_dates" for x in ast.walk(c))):
+            continue
+        at = flow.node_of(c)
+        if at is None:
+            continue
+        n += 1
+        construct = norm(c)[:90]
+        if any(s_ in dom.get(at, set()) for s_ in stores_):
+            chk.ok("C07.p", where, construct, "read after the clock has been advanced to the upcoming day")
+        else:
+            chk.violation("C07.p", where, construct, "the step start time is compared with the next planting date before the clock is advanced: it is the day just simulated - the "
+                          "planting day runs as a fallow day and the season starts a day late (dap 1 on planting date + 1)", loc=up.loc(c))
+    chk.floor("C07.p", n, 1, "comparisons of the step start time with the next planting date in update_time")
+
+
 def _affine_is(text: str, coefs, const) -> bool:
     """does the printed normal form consist of exactly the given atoms (by suffix) with these integer coefficients plus the constant?"""
     import re
@@ -956,6 +986,7 @@ def run(chk, prog, tier):
     rule_j(chk, prog)
     rule_k(chk, prog)
     rule_o(chk, prog)
+    rule_p(chk, prog)
     season_flag_guards(chk, prog, "C07.l")
     from ._loops import loop_variants
     chk.floor("C07.m", loop_variants(chk, prog, "C07.m"), 18, "while loops of the package classified by their reason to stop")
